@@ -116,6 +116,23 @@ def run(ctx: core.Ctx):
                 ctx.fail(variant, inp, band.tolist(), want.tolist(), note="band must be the half-even rounding of the exact PLS / expectile curve")
     ctx.notes["rounding_ties_tolerated"] = tie_tol
 
+    # a missing cell may be marked by the nodata value, NaN or +-inf (float cubes): the curve is that of the valid cells in each case
+    for k in range(ctx.budget(24, 150)):
+        n = rng.choice([8, 12, 24])
+        y, m, prm = smooth.make_case(rng, "pgu", n=n, min_ok=3)
+        if all(m):
+            m[rng.randrange(1, n - 1)] = False
+        for variant in ("gu", "pgu"):
+            base = smooth.call(variant, smooth.encode(y, m, -3000), -3000.0, prm)[0]
+            for bad, nm in ((float("nan"), "NaN"), (float("inf"), "+inf"), (float("-inf"), "-inf")):
+                arr = np.array([float(v) if ok else bad for v, ok in zip(y, m)], dtype="float64")
+                got = smooth.call(variant, arr, -3000.0, prm)[0]
+                ctx.case(("gapcode", variant, tuple(y), tuple(m), nm), sample=dict(variant=variant, placeholder=nm))
+                ctx.count("gap codings")
+                if not np.array_equal(got, base):
+                    ctx.fail(variant, dict(y=y, mask=[int(b) for b in m], params=prm, placeholder=nm), got.tolist(), base.tolist(),
+                             note="unit weight on valid cells: cells marked NaN / inf are missing exactly like cells equal to nodata")
+
     # accessor: whits with s / sg / p and the three dimension orders
     from hdc.algo.ops import ws2dgu, ws2dpgu
     for k in range(ctx.budget(8, 60)):
